@@ -1353,6 +1353,253 @@ def eval_far(payload):
 
 
 # ----------------------------------------------------------------------------------------
+# work item 5: the case distinctions of the object branch of canSee
+#   Thin rods (long boxes) between two directions of the viewer frame are enumerated and
+#   CLASSIFIED: (a) by the reference model - every ball of a cover of the rod outside the view
+#   volume => must not be visible; a ball inscribed in the rod inside the view volume, dense
+#   rays, centre not visible => must be visible; (b) by a recomputation of the branch
+#   predicates of the implementation (target ahead / crossing the rear axis / crossing both
+#   axes / early rejections; which edges of the horizontal and vertical ray windows are
+#   clipped).  (b) is used for coverage accounting only, never for the verdict.  For every
+#   (branch, clipped window edge, verdict) one representative (three in thorough) is run.
+# ----------------------------------------------------------------------------------------
+BRANCH_RAYS = (2, None, False)
+ROD_W_FRAC = 0.1  # rod thickness / visibleDistance
+
+
+def rod_endpoints(ang):
+    """Directions (az, alt, r/vd) used as rod end points."""
+    h, v = eff_angles(ang)
+    hh, hv = h / 2, v / 2
+    azs = [0.0, 180.0, 90.0, -90.0, 160.0, -160.0, 125.0, -125.0]
+    if h < 360:
+        for sgn in (1, -1):
+            azs += [_wrap_deg(sgn * (hh - 12)), _wrap_deg(sgn * (hh + 25))]
+    alts = [0.0, 40.0, -40.0, 62.0, -62.0]
+    if v < 180:
+        for sgn in (1, -1):
+            alts += [sgn * max(hv - 5, 2), sgn * min(hv + 22, 70)]
+    azs = sorted(set(azs), key=lambda a: (abs(a), a))
+    alts = sorted(set(alts), key=lambda a: (abs(a), a))
+    return [(az, alt, r) for r in (0.5, 1.3, 2.0) for az in azs for alt in alts]
+
+
+def mesh_edges(faces):
+    e = np.vstack([faces[:, [0, 1]], faces[:, [1, 2]], faces[:, [2, 0]]])
+    return np.unique(np.sort(e, axis=1), axis=0)
+
+
+def branch_label(local_verts, faces, ang, vd, near_dist, centre_visible):
+    """Recomputation of the case distinctions of visibility.canSee for an Object target, from the
+    target's vertices in the viewer frame.  Returns (branch, set of component flags)."""
+    hh, hv = ang[0] / 2, ang[1] / 2
+    if centre_visible:
+        return "centre-shortcut", set()
+    if near_dist > vd:
+        return "distance-reject", {"distance-reject"}
+    v = np.asarray(local_verts, float)
+    e = mesh_edges(faces)
+    a, b = v[e[:, 0]], v[e[:, 1]]
+    with np.errstate(divide="ignore", invalid="ignore"):
+        cross = (a[:, 0] / b[:, 0]) < 0
+    a, b = a[cross], b[cross]
+    t = -a[:, 0] / (b[:, 0] - a[:, 0])
+    yint = a[:, 1] + t * (b[:, 1] - a[:, 1])
+    ahead, behind = bool(np.any(yint >= 0)), bool(np.any(yint <= 0))
+    az = np.arctan2(v[:, 1], v[:, 0]) - math.pi / 2
+    az = np.mod(az + math.pi, 2 * math.pi) - math.pi
+    alt = np.arcsin(np.clip(v[:, 2] / np.linalg.norm(v, axis=1), -1, 1))
+    if alt.min() > hv:
+        return "vertical-reject", {"vertical-reject:above"}
+    if alt.max() < -hv:
+        return "vertical-reject", {"vertical-reject:below"}
+    vflags = set()
+    if alt.max() > hv:
+        vflags.add("U")
+    if alt.min() < -hv:
+        vflags.add("D")
+    if ahead and behind:
+        return "both-axes", {"both-axes"}
+    if behind:
+        back = np.where(az >= 0, az - math.pi, az + math.pi)
+        flags = set()
+        if hh + abs(back.max()) > math.pi:
+            flags.add("behind:R-window")
+        if hh + abs(back.min()) > math.pi:
+            flags.add("behind:L-window")
+        if not flags:
+            return "behind", {"behind:no-window"}
+        return "behind", flags | {"behind:" + f for f in vflags}
+    if az.max() < -hh:
+        return "front", {"front:horizontal-reject:right"}
+    if az.min() > hh:
+        return "front", {"front:horizontal-reject:left"}
+    flags = {"front:" + f for f in vflags}
+    if az.min() < -hh:
+        flags.add("front:R")
+    if az.max() > hh:
+        flags.add("front:L")
+    return "front", flags or {"front:inside"}
+
+
+REQUIRED_BRANCH_FLAGS = [
+    ("distance-reject", "N"),
+    ("vertical-reject:above", "N"),
+    ("vertical-reject:below", "N"),
+    ("both-axes", "N"),
+    ("both-axes", "V"),
+    ("behind:no-window", "N"),
+    ("front:horizontal-reject:left", "N"),
+    ("front:horizontal-reject:right", "N"),
+] + [(f"{b}:{e}", vd) for b in ("front", "behind") for e in ("U", "D") for vd in "NV"] + [
+    (f"front:{e}", vd) for e in ("L", "R") for vd in "NV"
+] + [(f"behind:{e}-window", vd) for e in ("L", "R") for vd in "NV"]
+
+
+def classify_rod(cam_l, ang, vd, A, B, spacing):
+    """Rod from A to B (viewer frame, metres): (verdict, centre, frame, dims, inner ball)."""
+    w = ROD_W_FRAC * vd
+    axis = B - A
+    L = float(np.linalg.norm(axis))
+    if L < 4 * w:
+        return None
+    helper = np.array([0.0, 0.0, 1.0]) if abs(axis[2]) / L < 0.9 else np.array([1.0, 0.0, 0.0])
+    F = M.frame_from_axes(axis, np.cross(helper, axis))
+    centre = (A + B) / 2
+    dims = (L, w, w)
+    I = np.eye(3)
+    rad_m = RAD_M_FRAC * vd
+    all_out = True
+    for c, r in M.box_cover_balls(centre, F, dims):
+        if M.classify_ball(cam_l, I, ang, vd, c, r, ANG_M, rad_m) != M.OUT:
+            all_out = False
+            break
+    if all_out:
+        return "N", centre, F, dims, None
+    for c, r in M.box_inner_balls(centre, F, dims):
+        d = float(np.linalg.norm(c))
+        if d > r and M.classify_ball(cam_l, I, ang, vd, c, r, ANG_M, rad_m) == M.IN and 2 * math.degrees(math.asin(r / d)) >= 4 * spacing:
+            return "V", centre, F, dims, (c, r)
+    return None
+
+
+def eval_branch(payload):
+    s = S()
+    acc = Acc()
+    spec, tier = payload["spec"], payload["tier"]
+    per_flag = 1 if tier == "quick" else 3
+    V = s.Vector
+    cam, R, ang, vd = model_of(spec)
+    kind = spec["kind"]
+    viewer = build_viewer(spec)
+    vobj = [viewer] if kind == "Object" else []
+    rad_m = RAD_M_FRAC * vd
+    spacing = ray_spacing_deg(spec, vd)
+    zero = np.zeros(3)
+    pts = rod_endpoints(spec["ang"] if kind != "Point" else (360, 180))
+    loc = [r * vd * M.direction(math.radians(az), math.radians(alt)) for az, alt, r in pts]
+    have = {}
+    n_run = 0
+    box_faces = M.box_mesh((1, 1, 1), np.eye(3), zero)[1]
+    for i in range(len(pts)):
+        if pts[i][2] != 0.5:
+            continue  # one end of every rod is near the camera
+        for j in range(len(pts)):
+            if j == i or (pts[j][2] == 0.5 and j < i):
+                continue
+            got = classify_rod(zero, ang, vd, loc[i], loc[j], spacing)
+            acc.inc("branch_rods_classified")
+            if got is None:
+                continue
+            verdict, c_l, F, dims, ball = got
+            verts_l, _ = M.box_mesh(dims, F, c_l)
+            near = M.point_box_distance(zero, c_l, F, dims)
+            centre_vis = M.classify_point(zero, np.eye(3), ang, vd, c_l, 0.0, 0.0) == M.IN
+            if verdict == "V" and M.classify_point(zero, np.eye(3), ang, vd, c_l, ANG_M, rad_m) != M.OUT:
+                continue  # the window logic is only reached when the centre is not visible
+            branch, flags = branch_label(verts_l, box_faces, ang, vd, near, centre_vis)
+            fresh = [f for f in flags if have.get((f, verdict), 0) < per_flag]
+            if not fresh:
+                continue
+            Rm = R @ F
+            centre = cam + R @ c_l
+            rod = build_box(centre, Rm, dims)
+            if rod is None:
+                acc.inc("skipped_gimbal")
+                continue
+            if n_run == 0:
+                check_placement(rod, M.box_mesh(dims, Rm, centre)[0], "a rod target")
+            n_run += 1
+            for f in flags:
+                have[(f, verdict)] = have.get((f, verdict), 0) + 1
+                acc.flags.add(f"br|{f}|{verdict}")
+                acc.inc(f"branch|{f}|{verdict}")
+            acc.inc("branch_cases")
+            exp = verdict == "V"
+            label = "+".join(sorted(flags))
+            desc = (
+                f"viewer: {describe_viewer(spec)}\ntarget: rod {fmt(dims)} from direction (az, alt, r/vd) {pts[i]} to {pts[j]} of the viewer frame, "
+                f"centre {fmt(centre)}, nearest point {near / vd:.2f} x visibleDistance; implementation branch (recomputed): {branch} [{label}]; "
+                + ("a ball inscribed in the rod lies inside the view volume by the margins, the rod's centre is outside it" if exp else "every ball of a cover of the rod lies outside the view volume by the margins")
+            )
+            case = {"type": "branch", "spec": spec, "tier": tier, "i": i, "j": j, "route": "canSee"}
+            routes = ["canSee"] + (["can-see-operator"] if n_run % 2 else [])
+            for route in routes:
+                if route == "canSee":
+                    obs = guarded(lambda: bool(viewer.canSee(rod)))
+                else:
+                    obs = guarded(lambda: op_can_see(viewer, rod, vobj + [rod]))
+                acc.inc("evaluations")
+                cc = dict(case, route=route)
+                if isinstance(obs, Raised):
+                    acc.violation(f"visibility-query-raises:{obs.name}:{kind}:branch:{branch}", desc + f"\nraised {obs.text}", cc)
+                elif obs != exp:
+                    acc.violation(
+                        ("object-visibility:part-inside-not-visible" if exp else "object-visibility:outside-view-volume-reported-visible")
+                        + f":{kind}:{route}:branch:{label}",
+                        desc + f"\nexpected visible={exp}, observed {obs} via {route}",
+                        cc,
+                    )
+            # the part inside the view volume fully hidden by a wall, the rest outside: not visible
+            if exp:
+                bc, br = ball
+                u = bc / np.linalg.norm(bc)
+                Fw = M.frame_from_axes(np.cross(u, [0.3, 0.5, 0.8]), u)
+                wdims = (1.6 * vd, 0.1 + 0.01 * vd, 1.6 * vd)
+                wc_l = 0.6 * float(np.linalg.norm(bc)) * u + 0.03 * vd * Fw[:, 0]
+                wmesh_l = M.box_mesh(wdims, Fw, wc_l)
+                ok = True
+                for c, r in M.box_cover_balls(c_l, F, dims):
+                    if M.classify_ball(zero, np.eye(3), ang, vd, c, r, ANG_M, rad_m) == M.OUT:
+                        continue
+                    cube = np.array([[a, b, d] for a in (-1, 1) for b in (-1, 1) for d in (-1, 1)], float) * r * 1.2 + c
+                    if not M.in_shadow_of(zero, cube, *wmesh_l):
+                        ok = False
+                        break
+                wall = build_box(cam + R @ wc_l, R @ Fw, wdims) if ok else None
+                if wall is None:
+                    acc.inc("branch_hidden_unjudged")
+                else:
+                    obs = guarded(lambda: bool(viewer.canSee(rod, occludingObjects=(wall,))))
+                    acc.inc("evaluations")
+                    acc.inc("branch_hidden_cases")
+                    for f in flags:
+                        acc.flags.add(f"br|{f}|H")
+                    cc = dict(case, route="canSee-hidden")
+                    if isinstance(obs, Raised):
+                        acc.violation(f"visibility-query-raises:{obs.name}:{kind}:branch:{branch}", desc + f"\nraised {obs.text}", cc)
+                    elif obs:
+                        acc.violation(
+                            f"object-visibility:fully-occluded-reported-visible:{kind}:canSee:branch:{label}",
+                            desc + "\nwith a wall hiding every cover ball that is not outside the view volume: expected visible=False, observed True",
+                            cc,
+                        )
+    if not acc.samples:
+        acc.samples.append({"viewer": describe_viewer(spec), "item": "rods per branch of the object case distinctions", "reached": sorted(f"{k[0]}|{k[1]}" for k in have)})
+    return acc.out()
+
+
+# ----------------------------------------------------------------------------------------
 # plan / run
 # ----------------------------------------------------------------------------------------
 def dispatch(item):
@@ -1366,6 +1613,8 @@ def dispatch(item):
         r = eval_object(payload)
     elif kind == "far":
         r = eval_far(payload)
+    elif kind == "branch":
+        r = eval_branch(payload)
     else:
         r = eval_programs(payload)
     r["cpu"] = time.process_time() - t0
